@@ -10,6 +10,7 @@ def check(ctx):
     whomay.schedule_sites(ctx, 'C04')
     whomay.priority_constants(ctx, 'C04')
     whomay.interruption_sites(ctx, 'C04')
+    whomay.active_process_discipline(ctx, 'C04')
     return ('Static: Interruption.__init__ (pre-failed, pre-defused, dead/self targets refused before scheduling, URGENT), '
             'Interruption._interrupt (dead victim ignored, victim alone detached from its target, then resumed), '
             'Process.__init__/Initialize (start scheduled URGENT before any reference to the process exists) and '
